@@ -165,6 +165,8 @@ TrWrathAttempt ==
                        <<"C11.agree", HasF(e.raw, "out") =>
                             (e.st.S = e.raw.st.S /\ e.st.i = e.raw.st.i /\ e.st.j = e.raw.st.j)>>,
                        <<"C10.stash", hout'.kind = "need5" => StashOK(half'[e.h], e.st)>>,
+                       <<"C12.clone", HasF(e, "clone") =>
+                            (e.res.kind = hout'.kind /\ (e.res.kind = "ok" => (e.res.header = hout'.header /\ SentSrv(e, e.res.header))))>>,
                        <<"C09.state", StOK(half'[e.h], e.st)>> >>,
                     {"WrathAttempt", "via." \o e.via} \cup (IF hout'.kind = "need5" THEN {"WrathAttempt.need5"} ELSE {"WrathAttempt.short"}))
 
@@ -175,6 +177,7 @@ TrWrathComplete ==
        ELSE /\ WrathCompleteHdr(e.h, e.byte)
             /\ Done(<< <<"C10.roundtrip", SentSrv(e, e.res.header)>>,
                        <<"C10.header", e.res.header = hout'.header>>,
+                       <<"C12.clone", HasF(e, "clone") => (e.res.header = hout'.header /\ SentSrv(e, e.res.header))>>,
                        <<"C09.state", StOK(half'[e.h], e.st)>> >>,
                     {"WrathComplete", "via." \o e.via})
 
